@@ -68,9 +68,14 @@ func smartDateParseWrapper(format string, tz *time.Location, dateStage KeyBuilde
 		var atomicFormat atomic.Value
 		atomicFormat.Store("")
 
+		// What the date expression yields when every lookup is empty, which is what static analysis of the
+		// expression evaluates it with (eg. "2020-01-" for "2020-01-{0}"): like the empty string, it must
+		// not be remembered as a valid format
+		emptyTime, _ := EvalStaticStage(dateStage)
+
 		return KeyBuilderStage(func(context KeyBuilderContext) string {
 			strTime := dateStage(context)
-			if strTime == "" { // This is important for future optimization efforts (so an empty string won't be remembered as a valid format)
+			if strTime == "" || strTime == emptyTime { // This is important for future optimization efforts (so an empty string won't be remembered as a valid format)
 				return ErrorParsing
 			}
 
